@@ -184,8 +184,11 @@ def explore_core(ctx: Ctx, prop: CoreProp) -> Exploration:
                         if expected in listed and (not match or any(m in what for m in match)):
                             kid = expected
                         if kid is None and prop.classify is not None:
+                            # every trigger predicate that matches is a candidate; only findings the committed file
+                            # lists for THIS property excuse the failure
                             c = prop.classify(prog, meta, what)
-                            kid = c if c in listed else None
+                            cands = c if isinstance(c, (list, tuple)) else [c]
+                            kid = next((x for x in cands if x in listed), None)
                         if kid:
                             if stats["known_seen"].get(kid, 0) == 0:
                                 exp.findings.append(Finding("failing-input", what, {"program": prog, "meta": meta,
